@@ -130,6 +130,19 @@ func cmdCheck(args []string) {
 			unbound = append(unbound, name+": "+err.Error())
 			continue
 		}
+		// a contract clause that no longer binds to the code (renamed local,
+		// changed shape) means the function cannot be decided: it is reported as
+		// such, never as a violation and never as discharged
+		specBroken := false
+		for _, u := range v.Unsupp {
+			if strings.HasPrefix(u, "spec:") {
+				specBroken = true
+			}
+		}
+		if specBroken {
+			unbound = append(unbound, name+": contract does not bind to the current code ("+v.Unsupp[0]+")")
+			continue
+		}
 		funcsUnder = append(funcsUnder, name)
 		all = append(all, v.Obls...)
 		for _, n := range v.Notes {
@@ -317,7 +330,7 @@ func writeEvidence(vd string, cfg *PropConfig, tier string, seed int, funcs []st
 	S float64
 }, notes, unsupp, unbound []string, known, undecided, violations int, wall float64, eng *vc.Engine) {
 	level := "proof"
-	if nDis != nObl {
+	if nDis != nObl || len(unbound) > 0 {
 		level = "other"
 	}
 	var samples []interface{}
